@@ -250,9 +250,9 @@ def _lengths(spec):
 
 
 def _explain(spec, bin_size, min_mq, key_tags, got_matrix):
-    """Best-effort NAME for a discrepancy: is the observed matrix exactly the expected one with all records of
-    one kind counted 0x / 2x / 3x (countable kinds) or 1x / 2x (kinds that must not be counted)?  Pure
-    recomputation with the oracle; used for the signature suffix only, never to decide a violation."""
+    """Best-effort EXPLANATION of a discrepancy for the detail field: every hypothesis "all records of kind K are
+    counted f times" (f in 0..3) whose what-if matrix equals the observed one (several kinds may share a
+    footprint, then all are listed).  Pure recomputation with the oracle; never decides or names a violation."""
     from oracles import c12_oracle as O
     from gen import c12_bam as G
     k = (tuple(spec), bin_size, min_mq, tuple(key_tags or ()))
@@ -275,10 +275,7 @@ def _explain(spec, bin_size, min_mq, key_tags, got_matrix):
                 hyp.append((lab, f, m))
         _EXPLAIN[k] = hyp
     want = _expected(spec, bin_size, min_mq, key_tags)[0]
-    for lab, f, m in _EXPLAIN[k]:
-        if m != want and m == got_matrix:
-            return f'{lab}-records-counted-{f}x'
-    return None
+    return [f'{lab} records counted {f}x' for lab, f, m in _EXPLAIN[k] if m != want and m == got_matrix][:6]
 
 
 def _site_name(case):
@@ -317,10 +314,9 @@ def judge(case, got, err):
     want, total, _ = _expected(spec, bin_size, min_mq, key_tags)
     under, over = O.diff(matrix, want)
     if under or over:
-        why = _explain(spec, bin_size, min_mq, key_tags, matrix)
         clause = 'undercount' if under and not over else 'overcount' if over and not under else 'miscount'
-        sig = f'{site}:{clause}' + (f':{why}' if why else '')
-        out.append((sig, {'expected_total': total, 'got_total': O.total(matrix),
+        out.append((f'{site}:{clause}', {'expected_total': total, 'got_total': O.total(matrix),
+                          'consistent_with': _explain(spec, bin_size, min_mq, key_tags, matrix),
                           'under(key,cell,got,want)': under[:4], 'over(key,cell,got,want)': over[:4],
                           'n_under': len(under), 'n_over': len(over)}))
     return out
